@@ -1,6 +1,7 @@
 """C13 (builder `compile`): a specification's behaviour is independent of its representation; compiling is
 idempotent.  Components `compile` and `jsontext` of harness/compile.go; model Model/Compile.v + Model/JsonText.v;
-correspondence and oracle Corr/CompileCorr.v."""
+correspondence and oracle Corr/CompileCorr.v.  Component `jsonesc` of harness/jsonesc.go: the text model with string
+escapes Model/JsonTextEsc.v; correspondence and oracle Corr/JsonEscCorr.v."""
 
 COMPILE_TRUSTED = [
     "models Model/Compile.v (core/spec.go DefaultPatternParser, ParsePatterns, Compile after the D9 repair; core/util.go "
@@ -14,6 +15,10 @@ COMPILE_TRUSTED = [
     "Gen/Consts.v regenerated from the tree under test (DefaultBranchType, DefaultErrorNodeName)",
     "Go harness (harness/compile.go: generators, renderings, recover), check driver, Corr/CompileCorr.v",
     "numbers restricted to multiples of 1/4; strings printable ASCII without quote and backslash (no escapes in pattern texts)",
+    "Model/JsonTextEsc.v (hand-written; json.Marshal / json.Unmarshal of go1.22 and later on strings with escapes) is exact "
+    "on bytes 0..127; \\u escapes of 0x80 and above, bytes that are not UTF-8 and U+2028 / U+2029 are outside it and are "
+    "not handed to it; it is tied to encoding/json by the component jsonesc (harness/jsonesc.go, Corr/JsonEscCorr.v) and "
+    "is not yet used by Model/Compile.v or Model/StateText.v, which still rest on Model/JsonText.v",
 ]
 
 PROPS = {
@@ -33,7 +38,13 @@ PROPS = {
              "walk, json.Marshal/Unmarshal + Compile and walk, yaml.Marshal/Unmarshal + Compile and walk, one Step per node. "
              "distinct = distinct (document, runs); non-trivial = at least two variants compiled, one of them with a pattern "
              "written as JSON text, and the reference walk moved.  jsontext: texts handed to json.Unmarshal (printed values with "
-             "optional spaces, 30% corrupted) and values handed to json.Marshal; non-trivial = an array or object was decoded.",
+             "optional spaces, 30% corrupted) and values handed to json.Marshal; non-trivial = an array or object was decoded.  "
+             "jsonesc (Model/JsonTextEsc.v, the text model with string escapes): a hand-written corpus of escapes the decoder "
+             "accepts and refuses; exhaustively every byte 0..127 through json.Marshal (alone, between letters, as a key) and "
+             "through json.Unmarshal (as \\u00XX in both cases, after a backslash, raw between quotes); generated values and "
+             "texts whose strings and keys mix quotes, backslashes, control characters, '<' '>' '&', DEL, '/' and a share of "
+             "well-formed non-ASCII UTF-8, each character written in any of the ways the decoder accepts, 25% corrupted; "
+             "non-trivial = an escape was decoded or written; BP = cases the model without escapes gets wrong.",
         trusted=COMPILE_TRUSTED,
         assumptions=["a walk in which a guard saw several candidates is not compared between variants (documented as arbitrary)",
                      "interpreter names are taken from those every host knows (ecmascript, ecmascript-5.1, goja) or from none",
@@ -48,6 +59,11 @@ PROPS = {
                  n=dict(quick=900, thorough=16000), shard=450, opts_thorough=dict(enum="4"),
                  evals=dict(M="jsontext_mismatches", V="jsontext_violations", NT="jsontext_nontrivial"),
                  counts=("NT",)),
+            dict(component="jsonesc", require="Corr.JsonEscCorr", require_vo="Corr/JsonEscCorr.vo",
+                 n=dict(quick=1500, thorough=16000), shard=500,
+                 evals=dict(M="jsonesc_mismatches", V="jsonesc_violations", NT="jsonesc_nontrivial",
+                            BP="jsonesc_beyond_plain"),
+                 counts=("NT", "BP")),
         ],
     ),
 }
